@@ -16,6 +16,8 @@ pub enum LibEnd {
 pub struct LibRun {
     pub parse_err: Option<String>,
     pub states: Vec<(Stack, Stack)>,
+    /// opcode byte the library says it executed at each step (0xfb = direct data push)
+    pub executed: Vec<u8>,
     pub end: LibEnd,
     /// stacks held by the interpreter object after the run stopped
     pub final_stacks: (Stack, Stack),
@@ -25,9 +27,10 @@ pub const STEP_CAP: usize = 100_000;
 
 pub fn lib_run_script(script: &Script) -> LibRun {
     let mut states = vec![];
+    let mut executed = vec![];
     let mut interp = match guard(|| Interpreter::from_script(script)) {
         Ok(i) => i,
-        Err(p) => return LibRun { parse_err: None, states, end: LibEnd::Panic(p), final_stacks: (vec![], vec![]) },
+        Err(p) => return LibRun { parse_err: None, states, executed, end: LibEnd::Panic(p), final_stacks: (vec![], vec![]) },
     };
     let mut end = LibEnd::StepCap;
     for _ in 0..STEP_CAP {
@@ -36,7 +39,10 @@ pub fn lib_run_script(script: &Script) -> LibRun {
                 end = LibEnd::Finished;
                 break;
             }
-            Ok(Some(Ok(st))) => states.push((st.stack.clone(), st.alt_stack.clone())),
+            Ok(Some(Ok(st))) => {
+                executed.push(st.executed_opcodes.last().map(|o| *o as u8).unwrap_or(0xff));
+                states.push((st.stack.clone(), st.alt_stack.clone()))
+            }
             Ok(Some(Err(e))) => {
                 end = LibEnd::Err(e.to_string());
                 break;
@@ -49,14 +55,14 @@ pub fn lib_run_script(script: &Script) -> LibRun {
     }
     let st = guard(|| interp.state()).ok();
     let final_stacks = st.map(|s| (s.stack.clone(), s.alt_stack.clone())).unwrap_or_default();
-    LibRun { parse_err: None, states, end, final_stacks }
+    LibRun { parse_err: None, states, executed, end, final_stacks }
 }
 
 pub fn lib_run(bytes: &[u8]) -> LibRun {
     match guard(|| Script::from_bytes(bytes)) {
         Ok(Ok(s)) => lib_run_script(&s),
-        Ok(Err(e)) => LibRun { parse_err: Some(e.to_string()), states: vec![], end: LibEnd::Err("parse".into()), final_stacks: (vec![], vec![]) },
-        Err(p) => LibRun { parse_err: Some(format!("panic: {}", p)), states: vec![], end: LibEnd::Panic(p), final_stacks: (vec![], vec![]) },
+        Ok(Err(e)) => LibRun { parse_err: Some(e.to_string()), states: vec![], executed: vec![], end: LibEnd::Err("parse".into()), final_stacks: (vec![], vec![]) },
+        Err(p) => LibRun { parse_err: Some(format!("panic: {}", p)), states: vec![], executed: vec![], end: LibEnd::Panic(p), final_stacks: (vec![], vec![]) },
     }
 }
 
@@ -105,6 +111,24 @@ pub fn compare(tokens: &[Tok], reference: &Trace, lib: &LibRun) -> Option<Diverg
     for i in 0..n {
         let (tok, rs_main, rs_alt) = &reference.states[i];
         let (ls_main, ls_alt) = &lib.states[i];
+        // did both sides execute the same script element at this step? If not, control flow diverged earlier:
+        // blame the last conditional (or OP_RETURN) the reference executed before this step.
+        let ref_code = match &tokens[*tok] {
+            Tok::Op(o) => *o,
+            Tok::Push(_) => 0xfb,
+            Tok::PushData(c, _) => *c,
+        };
+        if lib.executed.get(i).map(|c| *c != ref_code).unwrap_or(false) {
+            let culprit = reference.states[..i].iter().rev().map(|s| s.0).find(|t| matches!(tokens[*t], Tok::Op(0x63) | Tok::Op(0x64) | Tok::Op(0x6a)));
+            if let Some(c) = culprit {
+                return Some(Divergence {
+                    step: i,
+                    tok: c,
+                    kind: "wrong-control-flow",
+                    detail: format!("after {} the reference executes {} at step {}, the library executes {}", tokname(&tokens[c]), tokname(&tokens[*tok]), i, opname(lib.executed[i])),
+                });
+            }
+        }
         if rs_main != ls_main || rs_alt != ls_alt {
             return Some(Divergence {
                 step: i,
@@ -150,10 +174,12 @@ pub fn compare(tokens: &[Tok], reference: &Trace, lib: &LibRun) -> Option<Diverg
                 match &lib.end {
                     LibEnd::Finished => None,
                     LibEnd::Err(e) => {
-                        let tok = tokens.len().saturating_sub(1);
-                        Some(Divergence { step: n, tok, kind: "spurious-error", detail: format!("reference completes; library fails with '{}'", e) })
+                        // the library attempted a step the reference never takes: blame the last token the reference executed
+                        let tok = reference.states.last().map(|s| s.0).unwrap_or(0);
+                        let kind = if matches!(tokens.get(tok), Some(Tok::Op(0x6a))) { "execution-continues" } else { "spurious-error" };
+                        Some(Divergence { step: n, tok, kind, detail: format!("reference completes after {}; library goes on and fails with '{}'", tokens.get(tok).map(tokname).unwrap_or_default(), e) })
                     }
-                    LibEnd::Panic(p) => Some(Divergence { step: n, tok: tokens.len().saturating_sub(1), kind: "panic", detail: p.clone() }),
+                    LibEnd::Panic(p) => Some(Divergence { step: n, tok: reference.states.last().map(|s| s.0).unwrap_or(0), kind: "panic", detail: p.clone() }),
                     LibEnd::StepCap => Some(Divergence { step: n, tok: 0, kind: "does-not-terminate", detail: "step cap".into() }),
                 }
             }
